@@ -128,6 +128,11 @@ AsCodedClosedForm(a, b) == a \o Without(b, Range(a))
 (* every server-only key already behind every common key in the server's list            *)
 ServerOnlyLast(a, b) == \A i, j \in DOMAIN b : (b[i] \notin Range(a) /\ b[j] \in Range(a)) => j < i
 
+(* A member only one side has gets that side's mark whatever marks it carries already (an input may itself be a merged *)
+(* jar): the side callback appends the annotation, it does not look at what is there.                                   *)
+SidedMarks(pre, side) == pre \o <<side>>
+PreMarkedLaw(pre, side) == side \in Range(SidedMarks(pre, side)) /\ Range(pre) \subseteq Range(SidedMarks(pre, side))
+
 (* merge_slice: the keys in merged order, each with the side callback's mark *)
 MarkedMerge(a, b) == Marked(MergeOrder(a, b), a, b)
 MarkedMergeAsCoded(a, b) == Marked(MergeOrderAsCoded(a, b), a, b)
